@@ -35,6 +35,10 @@ def laws(p, q):
         ("wnext-3", ("next", 3, True, p), ("next", 1, True, ("next", 1, True, ("next", 1, True, p))), True),
         ("next-3", ("next", 3, False, p), ("next", 1, False, ("next", 1, False, ("next", 1, False, p))), True),
         ("wnext-4", ("next", 4, True, p), ("next", 2, True, ("next", 2, True, p)), True),
+        ("next-add", ("next", 2, False, ("next", 1, False, p)), ("next", 3, False, p), True),
+        ("wnext-add", ("next", 1, True, ("next", 2, True, p)), ("next", 3, True, p), True),
+        ("prev-add", ("prev", 1, False, ("prev", 2, False, p)), ("prev", 3, False, p), False),
+        ("wprev-add", ("prev", 2, True, ("prev", 1, True, p)), ("prev", 3, True, p), False),
         ("prev-2", ("prev", 2, False, p), ("prev", 1, False, ("prev", 1, False, p)), False),
         ("wprev-2", ("prev", 2, True, p), ("prev", 1, True, ("prev", 1, True, p)), False),
         ("eventually", ("evF", p), ("unt", T, p), True),
